@@ -26,6 +26,7 @@ import (
 	"verif/harness/h"
 	_ "verif/harness/warm"
 	"verif/harness/keys"
+	"verif/harness/val"
 )
 
 var P = h.New("C19", "exploration",
@@ -286,6 +287,68 @@ func run(c *h.Ctx, cs Case) {
 			}
 		}
 		c.P.Class("nested-ciphertext")
+	}
+	// a name that is already taken (by a plain value, by a value sealed under the same or another key, by an included
+	// entry): whatever AddEncrypted answers, "added" means readable - a nil error with nothing stored is a lost
+	// secret - and a refusal leaves the occupant as it was
+	for _, occ := range []string{"plain", "plain-bytes", "enc-same-key", "enc-other-key", "included"} {
+		tm := meta.NewMeta()
+		var oerr error
+		switch occ {
+		case "plain":
+			oerr = tm.Add("k", "public")
+		case "plain-bytes":
+			oerr = tm.Add("k", []byte("public"))
+		case "enc-same-key":
+			oerr = tm.AddEncrypted("k", second(cs.Plain), cs.Key)
+		case "enc-other-key":
+			oerr = tm.AddEncrypted("k", second(cs.Plain), cs.Other)
+		case "included":
+			src := meta.NewMeta()
+			oerr = src.Add("k", "public")
+			tm.Include(src)
+		}
+		if oerr != nil {
+			continue
+		}
+		beforeN, _ := tm.GetNode("k")
+		before := val.FromNode(beforeN).String()
+		if err := add(tm, cs, "k", cs.Key); err == nil {
+			if got, gerr := get(tm.ReadOnly(), cs, "k", cs.Key); gerr != nil || !bytes.Equal(got, cs.Plain) {
+				c.Fail("C19/taken-name/added-but-not-readable/"+occ, "AddEncrypted on a name already holding a %s value returned nil, but reading it back with the same key gives %d bytes / %v instead of the %d-byte value", occ, len(got), gerr, len(cs.Plain))
+			}
+		} else if afterN, _ := tm.GetNode("k"); afterN == nil || val.FromNode(afterN).String() != before {
+			c.Fail("C19/taken-name/refused-but-changed/"+occ, "AddEncrypted on a name already holding a %s value failed (%v) and the entry changed", occ, err)
+		}
+		c.P.Class("taken-name")
+	}
+	{
+		iss0, aud0 := keys.Principal(0).DID, keys.Principal(1).DID
+		enc := func() (delegation.Option, invocation.Option) {
+			if cs.AsBytes {
+				return delegation.WithEncryptedMetaBytes("k", cs.Plain, cs.Key), invocation.WithEncryptedMetaBytes("k", cs.Plain, cs.Key)
+			}
+			return delegation.WithEncryptedMetaString("k", string(cs.Plain), cs.Key), invocation.WithEncryptedMetaString("k", string(cs.Plain), cs.Key)
+		}
+		de, ie := enc()
+		for _, first := range []bool{true} { // the encrypted option comes last: if the constructor succeeds, it is that value the name holds
+			dopts := []delegation.Option{delegation.WithMeta("k", "public"), de}
+			iopts := []invocation.Option{invocation.WithMeta("k", "public"), ie}
+			if !first {
+				dopts[0], dopts[1] = dopts[1], dopts[0]
+				iopts[0], iopts[1] = iopts[1], iopts[0]
+			}
+			if d, err := delegation.New(iss0, aud0, command.MustParse("/foo"), policy.Policy{}, dopts...); err == nil {
+				if got, gerr := get(d.Meta(), cs, "k", cs.Key); gerr != nil || !bytes.Equal(got, cs.Plain) {
+					c.Fail("C19/taken-name/added-but-not-readable/option/dlg", "delegation.New with a plain and an encrypted value under one name (plain first: %v) succeeds, and the encrypted value cannot be read back: %d bytes / %v", first, len(got), gerr)
+				}
+			}
+			if iv, err := invocation.New(iss0, aud0, command.MustParse("/foo"), []cid.Cid{}, iopts...); err == nil {
+				if got, gerr := get(iv.Meta(), cs, "k", cs.Key); gerr != nil || !bytes.Equal(got, cs.Plain) {
+					c.Fail("C19/taken-name/added-but-not-readable/option/inv", "invocation.New with a plain and an encrypted value under one name (plain first: %v) succeeds, and the encrypted value cannot be read back: %d bytes / %v", first, len(got), gerr)
+				}
+			}
+		}
 	}
 	if err := m.AddEncrypted("n", 42, cs.Key); err == nil {
 		c.Fail("C19/non-encryptable-accepted", "AddEncrypted accepted an int")
